@@ -8,7 +8,7 @@ on them.  The twin pair deliberately shares a block (the siblings then have cros
 from __future__ import annotations
 
 PY = '''"""
-Purpose: order handling number {k}
+Purpose: order handling number {k} — Größe 中文 😀
 """
 import re
 import os
@@ -46,7 +46,7 @@ class Basket{w}:
         for it{w} in self.items{w}:
             acc{w} += str(it{w})
             pat{w} = re.compile("x{w}+")
-            print("item{w}", it{w}, pat{w})
+            print("item{w} → ü", it{w}, pat{w})
         return acc{w}
 
 
@@ -79,7 +79,7 @@ def mode{w}(kind{w}):
 '''
 
 TS = '''/**
- * Purpose: cart handling number {k}
+ * Purpose: cart handling number {k} — café 中文 😀
  */
 import {{ thing{w} }} from "./thing{w}";
 
@@ -112,7 +112,7 @@ export class Cart{w} {{
       }}
     }}
     this.items{w}.push(item{w});
-    console.log("added{w}", item{w});
+    console.log("added{w} é→", item{w});
     return this.items{w}.length;
   }}
 
@@ -141,7 +141,7 @@ export const arrow{w} = (a{w}: number) => {{
 }};
 '''
 
-JS = '''// Purpose: queue{w} handling number {k}
+JS = '''// Purpose: queue{w} handling number {k} — naïve 中文
 const depth{w} = 4{k}4;
 
 function drain{w}(queue{w}, limit{w}) {{
@@ -158,7 +158,7 @@ function drain{w}(queue{w}, limit{w}) {{
       }}
     }}
     text{w} += job{w};
-    console.log("job{w}", job{w});
+    console.log("job{w} ü😀", job{w});
   }}
   return text{w} + depth{w};
 }}
@@ -172,7 +172,7 @@ class Runner{w} {{
 module.exports = {{ drain{w}, Runner{w} }};
 '''
 
-RS = '''//! Purpose: ledger handling number {k}
+RS = '''//! Purpose: ledger handling number {k} — über 中文
 use std::collections::HashMap;
 
 const CAP{w}: u32 = 5{k}5;
@@ -218,7 +218,7 @@ impl Ledger{w} {{
 }}
 
 pub async fn load{w}(path{w}: &str) -> String {{
-    let data{w} = std::fs::read_to_string(path{w}).expect("read{w}");
+    let data{w} = std::fs::read_to_string(path{w}).expect("read{w} é😀");
     std::thread::sleep(std::time::Duration::from_millis(6{k}4));
     data{w}
 }}
